@@ -1693,6 +1693,12 @@ func (c *lruSessionCache) Put(sessionKey string, cs *ClientSessionState) {
 		return
 	}
 
+	if cs == nil {
+		// Nothing to remove. Do not insert a nil entry, which would evict a
+		// live session and make Get report a hit for a deleted key.
+		return
+	}
+
 	if c.q.Len() < c.capacity {
 		entry := &lruSessionCacheEntry{sessionKey, cs}
 		c.m[sessionKey] = c.q.PushFront(entry)
